@@ -484,7 +484,9 @@ theorem constructRoller_no_panic (t : Typed) : ∀ w, constructRoller t ≠ .pan
   split
   · split
     · split
-      · split <;> simp
+      · split
+        · simp only; split <;> simp
+        · simp
       · simp
     · simp
   · simp
